@@ -337,21 +337,6 @@ CONFIG = [
                 'self._process_sequence_results': 'process_sequences',
                 's_def.reset': 'seq_reset', 'enumerate': 'enumerate_lines'},
       'cells': {"self.stats['lines_searched']": 'lines_searched'}}),
-    ('tm_init', 'searchkit/search.py', 'ThreadManager.__init__',
-     {'locks': {},
-      'calls': {'threading.Event': 'event_new',
-                'self.event.clear': 'event_clear',
-                'threading.Thread': 'thread_new'},
-      'cells': {'self.running': 'running'}}),
-    ('tm_start', 'searchkit/search.py', 'ThreadManager.start',
-     {'locks': {},
-      'calls': {'self.thread.start': 'thread_start'},
-      'cells': {'self.running': 'running'}}),
-    ('tm_stop', 'searchkit/search.py', 'ThreadManager.stop',
-     {'locks': {},
-      'calls': {'self.event.set': 'event_set',
-                'self.thread.join': 'thread_join'},
-      'cells': {'self.running': 'running'}}),
     ('run_single', 'searchkit/search.py', 'FileSearcher._run_single',
      {'locks': {},
       'calls': {'self.stats.update': 'stats_update',
@@ -506,6 +491,50 @@ CONFIG = [
     ('collection_reset', 'searchkit/search.py',
      'SearchResultsCollection.reset',
      {'locks': {}, 'cells': {'self._results_by_path': 'by_path'}}),
+    # --- C10: helper-thread manager, worker clean-up, exception classes
+    ('tm_init', 'searchkit/search.py', 'ThreadManager.__init__',
+     {'locks': {},
+      'calls': {'threading.Event': 'event_new',
+                'self.event.clear': 'event_clear',
+                'self.event.set': 'event_set',
+                'threading.Thread': 'thread_new',
+                'self.thread.start': 'thread_start',
+                'self.thread.join': 'thread_join'},
+      'cells': {'self.running': 'running'}}),
+    ('tm_start', 'searchkit/search.py', 'ThreadManager.start',
+     {'locks': {},
+      'calls': {'self.thread.start': 'thread_start',
+                'self.event.set': 'event_set',
+                'self.thread.join': 'thread_join'},
+      'cells': {'self.running': 'running'}}),
+    ('tm_stop', 'searchkit/search.py', 'ThreadManager.stop',
+     {'locks': {},
+      'calls': {'self.event.set': 'event_set',
+                'self.event.clear': 'event_clear',
+                'self.thread.join': 'thread_join',
+                'self.thread.start': 'thread_start'},
+      'cells': {'self.running': 'running'}}),
+    ('kill_workers', 'searchkit/search.py',
+     'FileSearcher._ensure_worker_processes_killed',
+     {'locks': {},
+      'calls': {'multiprocessing.active_children': 'active_children',
+                'subprocess.check_output': 'ps_children',
+                'os.kill': 'kill', 'os.getpid': 'getpid',
+                'worker_pids.append': 'remember_worker'}}),
+    ('cm_init', 'searchkit/search.py', 'SearchConstraintsManager.__init__',
+     {'locks': {},
+      'cells': {'self.search_catalog': 'search_catalog',
+                'self.global_constraints': 'global_constraints',
+                'self.global_restrictions': 'global_restrictions'}}),
+    ('fs_stats', 'searchkit/search.py', 'FileSearcher.stats',
+     {'locks': {}, 'calls': {'self._stats.reset': 'stats_reset'},
+      'cells': {'self._stats': 'stats'}}),
+    ('rse_init', 'searchkit/exception.py', 'ResultStoreException.__init__',
+     {'locks': {}, 'calls': {'super().__init__': 'super_init'},
+      'cells': {'self.msg': 'msg', 'self.args': 'args'}}),
+    ('fse_init', 'searchkit/exception.py', 'FileSearchException.__init__',
+     {'locks': {}, 'calls': {'super().__init__': 'super_init'},
+      'cells': {'self.msg': 'msg', 'self.args': 'args'}}),
 ]
 
 ARG0 = {'Acq', 'Rel', 'Rd', 'Wr', 'Call', 'Handler', 'RaiseE'}
